@@ -5,6 +5,7 @@ import BigtoolsModel.BlockSpan
 import BigtoolsModel.PyBase
 import BigtoolsModel.Cache
 import BigtoolsModel.WigSections
+import BigtoolsModel.AtomsGen
 /-! # C03 — bigWig range queries return exactly the overlapping values, clipped, in order
 
 Property theorems (statements copied from the lemma modules, proofs by those lemmas). -/
@@ -102,3 +103,14 @@ theorem C03_source_filter_is_keepClip (qs qe : Nat) (v : Value) :
   ⟨gen_wig_filter_0 qs qe v, gen_wig_filter_1 qs qe v, gen_wig_filter_2 qs qe v⟩
 
 end BBI
+
+namespace StepSections
+
+/-- **The code's own expansion of variable-step and fixed-step sections** (regenerated from `get_block_values`): item `i` of
+    a fixed-step section is `[start + i·step, start + i·step + span)`, a variable-step item is `[s, s + span)` — the
+    expansions the decode theorems are stated with. -/
+theorem C03_source_step_sections (start step span i s : Nat) :
+    fixedStart start step span i = start + i * step ∧ Gen.fixed_end (fixedStart start step span i) span step = start + i * step + span ∧
+    Gen.var_end s span step = s + span := gen_step_items start step span i s
+
+end StepSections
